@@ -8,7 +8,8 @@
    proofs/HeaderRoundTrip.v, proofs/HeaderStore.v. *)
 From Coq Require Import Sorted.
 From MafVerif Require Import lib.Base lib.Str model.Validation model.Header spec.SpecHeader
-  proofs.HeaderSpec proofs.HeaderRoundTrip.
+  proofs.HeaderSpec proofs.HeaderRoundTrip proofs.HeaderStore.
+Import Store.
 
 (* ---------- one line ---------- *)
 (* MafHeaderRecord.from_line agrees with the classification of the spec: the
@@ -206,6 +207,45 @@ Theorem C13_checks_reflect_pragmas :
 Proof. intros C registry. exact (parsed_checks registry). Qed.
 Print Assumptions C13_checks_reflect_pragmas.
 
+(* ---------- a derived header is independent of its source ---------- *)
+(* store model: header records and contig lists are heap objects.  For any
+   well-formed source header (every record ref points to a record cell, every
+   list ref inside to a list cell), copy.deepcopy leaves the source reading the
+   same, the copy reads the same as the source, every object the copy reaches
+   is new, none of the source's is, and the two are separate *)
+Theorem C13_derived_copy_is_fresh :
+  forall hp src hp1 cp,
+    wf hp src -> deepcopy hp [] src = (hp1, cp) ->
+    view hp1 src = view hp src /\ view hp1 cp = view hp src /\
+    (forall x, in_fp hp1 cp x -> (length hp <= x)%nat) /\
+    (forall x, in_fp hp1 src x -> (x < length hp)%nat) /\
+    separate hp1 src cp.
+Proof. exact deepcopy_spec. Qed.
+Print Assumptions C13_derived_copy_is_fresh.
+
+(* whatever sequence of mutations (new record, delete, in-place value / key
+   assignment, in-place append to a contig list, new contigs record) is applied
+   to the derived header, the source reads as before - and the other way round *)
+Theorem C13_derived_header_independent :
+  forall hp src hp1 cp,
+    wf hp src -> deepcopy hp [] src = (hp1, cp) ->
+    (forall ms hp2 cp', apply_muts hp1 cp ms = (hp2, cp') -> view hp2 src = view hp src) /\
+    (forall ms hp2 src', apply_muts hp1 src ms = (hp2, src') -> view hp2 cp = view hp src).
+Proof. exact derived_header_independent. Qed.
+Print Assumptions C13_derived_header_independent.
+
+(* after any interleaved history of mutations of both headers they are still
+   separate: a further mutation of either one is invisible through the other *)
+Theorem C13_derived_header_stays_separate :
+  forall hp src hp1 cp ms hp2 src' cp',
+    wf hp src -> deepcopy hp [] src = (hp1, cp) ->
+    apply_both hp1 src cp ms = (hp2, src', cp') ->
+    separate hp2 src' cp' /\
+    (forall m hp3 x, apply_mut hp2 src' m = (hp3, x) -> view hp3 cp' = view hp2 cp') /\
+    (forall m hp3 x, apply_mut hp2 cp' m = (hp3, x) -> view hp3 src' = view hp2 src').
+Proof. exact derived_header_stays_separate. Qed.
+Print Assumptions C13_derived_header_stays_separate.
+
 (* ---------- non-vacuity ---------- *)
 Definition l_version : str := [35;118;101;114;115;105;111;110;32;103;100;99;45;49;46;48;46;48]%N. (* #version gdc-1.0.0 *)
 Definition l_contigs : str := [35;99;111;110;116;105;103;115;32;99;104;114;49;44;99;104;114;50]%N. (* #contigs chr1,chr2 *)
@@ -289,4 +329,34 @@ Example demo_checks :
    map etpe (validate_errs demo_registry
                [(K_VERSION, {| hkey := K_VERSION; hval := HText s_k |})] None))
   = ([6; 8], [9], [7; 8]).
+Proof. vm_compute. reflexivity. Qed.
+
+(* the store model: the parsed header as from_lines builds it (the contig list
+   object is shared by the contigs record and the coordinate sort order) is
+   well-formed and reads as the value-model header *)
+Definition demo_store : heap * sheader := alloc_header [] (hrecs demo_header) None.
+Example demo_store_wf : wfb (fst demo_store) (snd demo_store) = true.
+Proof. vm_compute. reflexivity. Qed.
+Example demo_store_view : view (fst demo_store) (snd demo_store) = hrecs demo_header.
+Proof. vm_compute. reflexivity. Qed.
+Definition demo_copy : heap * sheader := deepcopy (fst demo_store) [] (snd demo_store).
+Example demo_copy_view : view (fst demo_copy) (snd demo_copy) = hrecs demo_header.
+Proof. vm_compute. reflexivity. Qed.
+(* mutating the copy in place (append to its contig list, overwrite its version,
+   delete a record): the copy changes - both records sharing the list - the source does not *)
+Definition demo_muts : list mut :=
+  [MAppendContig K_CONTIGS s_k; MAssignValue K_VERSION s_k; MDel s_k].
+Example demo_mutate_copy :
+  let '(hp2, cp') := apply_muts (fst demo_copy) (snd demo_copy) demo_muts in
+  (view hp2 (snd demo_store), view hp2 cp') =
+  (hrecs demo_header,
+   [ (K_VERSION, {| hkey := K_VERSION; hval := HText s_k |});
+     (K_CONTIGS, {| hkey := K_CONTIGS; hval := HContigs [s_chr1; s_chr2; s_k] |});
+     (K_SORT, {| hkey := K_SORT; hval := HOrder SoCoordinate [s_chr1; s_chr2; s_k] |}) ]).
+Proof. vm_compute. reflexivity. Qed.
+(* the model can tell: without the deepcopy (an alias of the same header
+   object) the same in-place mutation is visible through the source *)
+Example demo_alias_is_visible :
+  let '(hp2, _) := apply_muts (fst demo_store) (snd demo_store) demo_muts in
+  h_contigs (view hp2 (snd demo_store)) = Some [s_chr1; s_chr2; s_k].
 Proof. vm_compute. reflexivity. Qed.
